@@ -54,6 +54,7 @@ func init() {
 			{ID: "C09-R28", Title: "callbacks that run on another goroutine run on a clone", Floor: 2, Run: callbacksThatRunElsewhereRunOnAClone},
 			{ID: "C09-R29", Title: "iterables are asked for a fresh iterator (shared with C10-R16)", Floor: 1, Run: iterablesAreAskedForAFreshIterator},
 			{ID: "C09-R30", Title: "fields accessed through sync/atomic are always accessed that way", Floor: 1, Run: atomicFieldsAreAlwaysAccessedAtomically},
+			{ID: "C09-R31", Title: "the virtual OS keeps no map of the host", Floor: 1, Run: theVirtualOSKeepsNoMapOfTheHost},
 		},
 	})
 }
